@@ -348,3 +348,9 @@ impl Checksum {
  dict(prop='C03', name='add_xormap pushes the complement of the map', expect='cedt::XorInterleaveMath::add_xormap',
       edits=[('src/cedt.rs', "        self.bitmaps.push(xormap);", "        self.bitmaps.push(!xormap);")]),
 ]
+MUTANTS += [
+ dict(prop='C14', name='a sink wrapper whose method looks at the address of the sink it holds', expect='obliviousness',
+      edits=[('src/aml.rs', "impl Aml for Zero {\n    fn to_aml_bytes(&self, sink: &mut dyn AmlSink) {\n        sink.byte(ZEROOP);", "struct ZeroWriter<'a>(&'a mut dyn AmlSink);\n\nimpl ZeroWriter<'_> {\n    fn put(&mut self, b: u8) {\n        let p = &*self.0 as *const dyn AmlSink as *const u8 as usize;\n        self.0.byte(b | (p & 0) as u8);\n    }\n}\n\nimpl Aml for Zero {\n    fn to_aml_bytes(&self, sink: &mut dyn AmlSink) {\n        ZeroWriter(sink).put(ZEROOP);")]),
+ dict(prop='C14', name='benign: a private wrapper around the sink that only forwards to the five methods', expect=None,
+      edits=[('src/aml.rs', "impl Aml for Zero {\n    fn to_aml_bytes(&self, sink: &mut dyn AmlSink) {\n        sink.byte(ZEROOP);", "struct ZeroWriter<'a>(&'a mut dyn AmlSink);\n\nimpl ZeroWriter<'_> {\n    fn put(&mut self, b: u8) {\n        self.0.byte(b);\n    }\n}\n\nimpl Aml for Zero {\n    fn to_aml_bytes(&self, sink: &mut dyn AmlSink) {\n        ZeroWriter(sink).put(ZEROOP);")]),
+]
